@@ -364,3 +364,110 @@ def _ex_disambiguate(tier, rng):
         for sub in itertools.combinations(pairs, k):
             for perm in ([sub] if tier == "quick" or k > 4 else itertools.permutations(sub)):
                 yield {"rain_intervals": [p[0] for p in perm], "jump_intervals": [p[1] for p in perm]}
+
+
+# --------------------------------------------------------------------------- SQL-executing functions
+
+@spec
+def flag_jump(epoch, zeta, thr, i):
+    """Sample i ends an increment whose rate exceeds the threshold (the first sample never does)."""
+    return i >= 1 and (zeta[i] - zeta[i - 1]) / ((epoch[i] - epoch[i - 1]) / 3600) > thr
+
+
+@spec
+def flag_settled(epoch, zeta, rain, thr, i):
+    """Some rainy step r <= i exists and no rain-free sample since r ends a too-fast increment."""
+    return exists(0, i + 1, lambda r: rain[r] and forall(r + 1, i + 1, lambda q:
+                  not rain[q] and not flag_jump(epoch, zeta, thr, q)))
+
+
+@spec
+def run_facts(bv, idx):
+    """idx[0] .. idx[-1] is a maximal run of True values of bv."""
+    return (len(idx) >= 1 and 0 <= idx[0] and idx[0] <= idx[len(idx) - 1] and idx[len(idx) - 1] < len(bv)
+            and forall(idx[0], idx[len(idx) - 1] + 1, lambda q: bv[q])
+            and (idx[0] == 0 or not bv[idx[0] - 1])
+            and (idx[len(idx) - 1] == len(bv) - 1 or not bv[idx[len(idx) - 1] + 1]))
+
+
+@spec
+def is_inter(epoch, zeta, rain, thr, q):
+    return flag_settled(epoch, zeta, rain, thr, q) and not rain[q]
+
+
+@spec
+def interstorm_row(row, epoch, inter, a, b):
+    """row is ('interstorm' interval from epoch[a] through epoch[b]) and [a, b] is a maximal run
+    of at least two samples of the interstorm flag."""
+    return (row[1] == 0 and 0 <= a and a < b and b < len(epoch)
+            and row[0] == epoch[a] and row[2] == epoch[b]
+            and forall(a, b + 1, lambda q: inter[q])
+            and (a == 0 or not inter[a - 1])
+            and (b == len(epoch) - 1 or not inter[b + 1]))
+
+
+@contract("spowtd.classify:classify_interstorms", db=True,
+          args={"cursor": "cursor", "data_interval": "int", "rising_jump_threshold_mm_h": "real"}, returns="none",
+          ghost_results={"g_epoch": "array[int]", "g_zeta": "array[real]", "g_rain": "array[bool]",
+                         "g_a": "list[int]", "g_b": "list[int]", "g_inter": "array[bool]"})
+def _classify_interstorms(cursor, data_interval, rising_jump_threshold_mm_h):
+    """C04 at statement level: one flags row per sample of the stretch, (epoch, rise, unexplained
+    rise, interstorm) by the property's definitions; every interstorm row inserted is (first epoch,
+    last epoch) of a maximal run of >= 2 interstorm samples.  C01: no exception.  C20: writes only
+    before the commit, nothing committed here."""
+    requires(not db_sealed())
+    requires(rising_jump_threshold_mm_h > 0)
+    modifies("__db__")
+    ghost(after="epoch, zeta_mm, is_raining = ", let="g_epoch", do=lambda: epoch)
+    ghost(after="epoch, zeta_mm, is_raining = ", let="g_zeta", do=lambda: zeta_mm)
+    ghost(after="is_raining = is_raining.astype(bool)", let="g_rain", do=lambda: is_raining)
+    ensures(not db_sealed())
+    ensures(len(g_epoch) >= 1 and len(g_zeta) == len(g_epoch) and len(g_rain) == len(g_epoch))
+    ensures(len(db_rows("grid_time_flags")) == len(db_rows_before("grid_time_flags")) + len(g_epoch))
+    ensures(forall(0, len(g_epoch), lambda i:
+            db_rows("grid_time_flags")[len(db_rows_before("grid_time_flags")) + i]
+            == (g_epoch[i],
+                1 if flag_jump(g_epoch, g_zeta, rising_jump_threshold_mm_h, i) else 0,
+                0 if flag_settled(g_epoch, g_zeta, g_rain, rising_jump_threshold_mm_h, i) else 1,
+                1 if (flag_settled(g_epoch, g_zeta, g_rain, rising_jump_threshold_mm_h, i) and not g_rain[i]) else 0)))
+    ghost(after="is_jump = ", do=lambda: cut(len(is_jump) == len(epoch) and forall(0, len(epoch), lambda q:
+          is_jump[q] == flag_jump(epoch, zeta_mm, rising_jump_threshold_mm_h, q))))
+    ghost(after="is_interstorm = ", do=lambda: cut(len(is_interstorm) == len(epoch) and forall(0, len(epoch), lambda q:
+          is_interstorm[q] == is_inter(epoch, zeta_mm, is_raining, rising_jump_threshold_mm_h, q))))
+    ghost(after="series_indices = [np.nonzero(mask)[0] for mask in masks]", do=lambda: cut(
+        forall(0, len(series_indices), lambda r:
+               len(series_indices[r]) >= 1 and masks[r][series_indices[r][0]]
+               and masks[r][series_indices[r][len(series_indices[r]) - 1]]
+               and forall(0, len(epoch), lambda k: implies(
+                   masks[r][k], series_indices[r][0] <= k and k <= series_indices[r][len(series_indices[r]) - 1])))))
+    ghost(after="series_indices = [np.nonzero(mask)[0] for mask in masks]", do=lambda: cut(
+        forall(0, len(series_indices), lambda r: forall(0, len(epoch), lambda k: implies(
+            series_indices[r][0] <= k and k <= series_indices[r][len(series_indices[r]) - 1], masks[r][k]),
+            trigger=lambda k: (series_indices[r][0], interval_mask[k])))))
+    ghost(after="series_indices = [np.nonzero(mask)[0] for mask in masks]", do=lambda: cut(
+        forall(0, len(series_indices), lambda r: run_facts(interval_mask, series_indices[r]))))
+    ghost(before="cursor.execute(", do=lambda: cut(
+        0 <= indices[0] and indices[0] < indices[len(indices) - 1] and indices[len(indices) - 1] < len(epoch)
+        and forall(indices[0], indices[len(indices) - 1] + 1, lambda q: interval_mask[q])
+        and (indices[0] == 0 or not interval_mask[indices[0] - 1])
+        and (indices[len(indices) - 1] == len(epoch) - 1 or not interval_mask[indices[len(indices) - 1] + 1])))
+    # interstorm rows: the k-th row inserted here is (epoch[g_a[k]], 'interstorm', epoch[g_b[k]]) and
+    # [g_a[k], g_b[k]] is a maximal run of at least two interstorm samples
+    ghost(after="masks = get_true_interval_masks(", let="g_a", do=lambda: [])
+    ghost(after="masks = get_true_interval_masks(", let="g_b", do=lambda: [])
+    ghost(before="cursor.execute(", let="g_a", do=lambda: g_a + [indices[0]])
+    ghost(before="cursor.execute(", let="g_b", do=lambda: g_b + [indices[len(indices) - 1]])
+    ensures(len(g_a) == len(g_b) and len(db_rows("zeta_interval")) == len(db_rows_before("zeta_interval")) + len(g_a))
+    ensures(forall(0, len(g_a), lambda k: interstorm_row(
+        db_rows("zeta_interval")[len(db_rows_before("zeta_interval")) + k], g_epoch, g_inter, g_a[k], g_b[k])))
+    # ... where the interstorm flag is the property's: rain-free, some rain earlier, and no too-fast
+    # increment ending at a rain-free sample since the last rainy step
+    ghost(after="is_interstorm = ", let="g_inter", do=lambda: is_interstorm)
+    ensures(len(g_inter) == len(g_epoch) and forall(0, len(g_epoch), lambda q:
+            g_inter[q] == is_inter(g_epoch, g_zeta, g_rain, rising_jump_threshold_mm_h, q)))
+    loop(0, types={"g_a": "list[int]", "g_b": "list[int]"}, inv=lambda it: not db_sealed()
+         and db_rows("grid_time_flags") == g_flags
+         and len(g_a) == len(g_b) and len(db_rows("zeta_interval")) == len(db_rows_before("zeta_interval")) + len(g_a)
+         and forall(0, len(g_a), lambda k: interstorm_row(
+             db_rows("zeta_interval")[len(db_rows_before("zeta_interval")) + k], epoch, interval_mask, g_a[k], g_b[k])))
+    ghost(after="masks = get_true_interval_masks(", let="g_flags", do=lambda: db_rows("grid_time_flags"))
